@@ -21,7 +21,9 @@ def copy_repo(dst):
 
 def build_demo(root, demo, out, extra):
     srcs = sorted(os.path.join(root, 'src', f) for f in os.listdir(os.path.join(root, 'src')) if f.endswith('.c'))
-    cmd = ['gcc', '-g', '-O1', '-std=gnu11', '-DPOLYSEED_STATIC', '-I', os.path.join(root, 'include')] + extra + srcs + [demo, '-o', out, '-lutf8proc', '-lpthread']
+    cc = 'clang' if '--clang' in extra else 'gcc'
+    extra = [e for e in extra if e != '--clang']
+    cmd = [cc, '-g', '-O1', '-std=gnu11', '-DPOLYSEED_STATIC', '-I', os.path.join(root, 'include')] + extra + srcs + [demo, '-o', out, '-lutf8proc', '-lpthread']
     return sh(cmd)
 
 
@@ -31,6 +33,8 @@ def demo_flags(demo_src):
     lines = [l for l in head.splitlines() if re.search(r'\b(gcc|clang|cc)\b', l) and ('demo' in l or 'src/' in l)]
     cmd = ' '.join(lines) if lines else head
     extra = []
+    if re.search(r'(^|\s|\*)clang\b', cmd) and not re.search(r'(^|\s|\*)gcc\b', cmd):
+        extra.append('--clang')
     m = re.search(r'-fsanitize=([a-z,]+)', cmd)
     if m:
         extra += ['-fsanitize=' + m.group(1), '-fno-omit-frame-pointer']
